@@ -1965,7 +1965,8 @@ class Store:
 
         if self.subschema:
             self._apply_subschema()
-        for child in self.inner.values():
+        # (a list: a sub-schema wired upward may add a node here)
+        for child in list(self.inner.values()):
             child._apply_subschemas()
 
     def _update_subschema(self, path, subschema):
